@@ -609,6 +609,12 @@ func (x *omExec) argsFor(op *omOp) []reflect.Value {
 
 // run executes a history; it returns the run record and the executor (for state checks).
 func (s *omSys) run(init int, ops []uint16) (*core.SeqRun, *omExec) {
+	return s.runHook(init, ops, nil)
+}
+
+// runHook is run with a callback after the initial state and after every call (used to interleave
+// renderings with the history, so that anything the renderers remember about the list goes stale).
+func (s *omSys) runHook(init int, ops []uint16, hook func(x *omExec)) (*core.SeqRun, *omExec) {
 	run := &core.SeqRun{}
 	x := &omExec{s: s, ids: map[uintptr]int{}}
 	x.root, x.parent, x.fld = s.site.Fresh()
@@ -641,6 +647,9 @@ func (s *omSys) run(init int, ops []uint16) (*core.SeqRun, *omExec) {
 		return fail(-1, nil, cl, d)
 	}
 	run.Canons = append(run.Canons, canon)
+	if hook != nil {
+		hook(x)
+	}
 	for i, oi := range ops {
 		op := &s.ops[oi]
 		class, cl, d := guard(func() (string, string, string) { return x.step(op) })
@@ -672,6 +681,9 @@ func (s *omSys) run(init int, ops []uint16) (*core.SeqRun, *omExec) {
 		}
 		run.Canons = append(run.Canons, canon)
 		run.Classes = append(run.Classes, class)
+		if hook != nil {
+			hook(x)
+		}
 	}
 	return run, x
 }
@@ -683,7 +695,31 @@ func (s *omSys) Exec(init int, ops []uint16) *core.SeqRun {
 
 // c15StateCheck evaluates one order-preservation law in the state reached by the history.
 func c15StateCheck(s *omSys, init int, ops []uint16, which string) (clause, detail string) {
-	run, x := s.run(init, ops)
+	if strings.HasSuffix(which, "+hist") {
+		// the same rendering is also performed (result discarded) at ONE earlier point of the history, on the
+		// very object that the following calls mutate: once for every such point (a renderer that remembers
+		// something about the list sees the list change behind its back), and once at every point
+		base := strings.TrimSuffix(which, "+hist")
+		for at := -1; at < len(ops); at++ {
+			at := at
+			n := 0
+			hook := func(x *omExec) {
+				if at == -1 || n == at {
+					c15Render(s.site.P, x.root, base)
+				}
+				n++
+			}
+			if cl, d := c15StateCheckHook(s, init, ops, base, hook); cl != "" {
+				return cl + "(rendered-along-history)", fmt.Sprintf("also rendered after call #%d (-1: after every call, 0: initial state): %s", at, d)
+			}
+		}
+		return "", ""
+	}
+	return c15StateCheckHook(s, init, ops, which, nil)
+}
+
+func c15StateCheckHook(s *omSys, init int, ops []uint16, which string, hook func(x *omExec)) (clause, detail string) {
+	run, x := s.runHook(init, ops, hook)
 	if run.Viol != nil {
 		return "", "" // reported by the search
 	}
@@ -754,7 +790,21 @@ func c15StateCheck(s *omSys, init int, ops []uint16, which string) (clause, deta
 	return "", ""
 }
 
-var c15Checks = []string{"json", "gnmi", "copy"}
+// c15Render performs one rendering of root and discards the result (errors and panics included:
+// they are judged by the state law itself).
+func c15Render(p *core.Pkg, root ygot.GoStruct, which string) {
+	defer func() { recover() }()
+	switch which {
+	case "json":
+		ygot.Marshal7951(root)
+	case "gnmi":
+		ygot.TogNMINotifications(root, 42, ygot.GNMINotificationsConfig{UsePathElem: true})
+	case "copy":
+		ygot.DeepCopy(root)
+	}
+}
+
+var c15Checks = []string{"json", "gnmi", "copy", "json+hist", "gnmi+hist", "copy+hist"}
 
 func c15Pkgs(c *core.Ctx) []string {
 	var out []string
@@ -770,7 +820,7 @@ func runC15(c *core.Ctx) {
 	if c.Thorough() {
 		full = "4 (packages vtus, vtuw, voccs; 3 in the other packages)"
 	}
-	c.Rule = fmt.Sprintf("seqmc: for every ordered-by-user list of the 8 corpus packages (single-key ol/olx/rule, two-key ol2), breadth-first search over call histories of length <= %d from a nil and from an empty ordered map; alphabet = {AppendNew(k), Append(e_k), Append(nil), Append(entry with a nil key leaf, one per key leaf), Delete(k), Get(k), Keys(), Values(), Len()} on the map plus the parent's AppendNew<L>/Append<L>/Get<L>/Delete<L> (and Append<L> of nil / nil-key entries), k from a 3-key domain (two-key tuples share components); every successor is the replay of the whole history on a fresh generated struct; states deduplicated by (receiver nil-ness, key order, entry identity by birth index, births); after every call return values, Keys(), Values(), Len(), Get(k) for every k, entry identities and key leaves are compared with a slice of (key, identity), the slices returned by Keys()/Values() are overwritten and re-read, rejected and read-only calls must leave the reflect dump of the parent struct (the list incl. its unexported keys/valueMap fields, every entry, all siblings) unchanged; additionally ALL histories of length %s are executed without deduplication; in every distinct state the order must survive Marshal7951->Unmarshal, TogNMINotifications->UnmarshalNotifications and DeepCopy; non-trivial = state with >= 2 entries", depth, full)
+	c.Rule = fmt.Sprintf("seqmc: for every ordered-by-user list of the 8 corpus packages (single-key ol/olx/rule, two-key ol2), breadth-first search over call histories of length <= %d from a nil and from an empty ordered map; alphabet = {AppendNew(k), Append(e_k), Append(nil), Append(entry with a nil key leaf, one per key leaf), Delete(k), Get(k), Keys(), Values(), Len()} on the map plus the parent's AppendNew<L>/Append<L>/Get<L>/Delete<L> (and Append<L> of nil / nil-key entries), k from a 3-key domain (two-key tuples share components); every successor is the replay of the whole history on a fresh generated struct; states deduplicated by (receiver nil-ness, key order, entry identity by birth index, births); after every call return values, Keys(), Values(), Len(), Get(k) for every k, entry identities and key leaves are compared with a slice of (key, identity), the slices returned by Keys()/Values() are overwritten and re-read, rejected and read-only calls must leave the reflect dump of the parent struct (the list incl. its unexported keys/valueMap fields, every entry, all siblings) unchanged; additionally ALL histories of length %s are executed without deduplication; in every distinct state the order must survive Marshal7951->Unmarshal, TogNMINotifications->UnmarshalNotifications and DeepCopy, each also with the same rendering performed (and discarded) in the initial state and after every call of the history on the object the later calls mutate (anything a renderer remembers about a list must not go stale); non-trivial = state with >= 2 entries", depth, full)
 	c.R.Assume("entry identity is pointer identity of the generated entry structs; key equality is Go == on the generated key types")
 	c.R.Assume("a rejected parent helper (Append<L>(nil) ...) on a nil field may instantiate the empty ordered map: not judged, counted")
 	sites := seqSites(c15Pkgs(c), true, false)
